@@ -41,6 +41,22 @@ SPECIFICATION LiveSpec
 PROPERTIES EventuallyDelivered EventuallyQuiet
 CHECK_DEADLOCK FALSE
 """
+SYNC_MC = """CONSTANTS
+  RT = 2
+  SeqS = 3
+  MaxRounds = %d
+  MaxTime = %d
+SPECIFICATION Spec
+INVARIANTS TypeOK BoundedWait EarlyOnlyWithCause NoLingeringP
+CHECK_DEADLOCK FALSE
+"""
+SYNC_TR = """CONSTANTS
+  TraceFile = "%s"
+  TOL = 2
+SPECIFICATION Spec
+POSTCONDITION TraceAccepted
+CHECK_DEADLOCK FALSE
+"""
 KA = """CONSTANTS
   N = %(n)d
   P = 7
@@ -94,6 +110,17 @@ def run(ctx):
         states += r["distinct"]
         trans += r["generated"]
 
+    # gbn/syncer.go: the wait after a resend is bounded and ends early only
+    # for a cause (Syncer.tla; its theorems are what Trace_Syncer demands of
+    # the real waits below)
+    r = tlc(ctx, "Syncer", SYNC_MC % ((2, 11) if quick else (3, 14)), "mc_syncer",
+            timeout=3000)
+    if not r["ok"]:
+        raise Infra("Syncer.tla violates %s" % r["violated"])
+    ctx.cov["syncer_model_states"] = r["distinct"]
+    states += r["distinct"]
+    trans += r["generated"]
+
     binary = build_drivers(ctx)
     out = ctx.sub("c06")
     rc, o = run_driver(ctx, binary, "TestC06Progress", out, timeout=2400)
@@ -141,12 +168,36 @@ def run(ctx):
     n, rej, st = linetrace.validate(ctx, "Trace_Progress", TR, p2, "tr_prog", keyfn,
                                     "progress trace", segment_op="reset",
                                     max_rejects=10)
-    # the data-phase events of the same runs against GBN.tla
+    # the resend-sync waits of the runs with a static resend timeout against
+    # the theorems of Syncer.tla (Trace_Syncer: bounded wait, early end only
+    # for a cause)
     runs = summ["runs"]
+    sync_lines = sync_rej = sync_waits = 0
+    keep = {"reset", "setN", "resend", "ack", "nack", "closeQuit", "syncWait", "syncDone"}
+    sp = os.path.join(out, "c06_sync.ndjson")
+    with open(sp, "w") as fh:
+        for r in runs:
+            if not r["desc"].get("staticMs"):
+                continue
+            for x in lines[r["first"] - 1:r["last"]]:
+                if x.get("ev") in keep:
+                    if x["ev"] == "reset":
+                        x = dict(x, desc=json.dumps(r["desc"], sort_keys=True))
+                    fh.write(json.dumps(x) + "\n")
+                    sync_waits += x["ev"] == "syncDone"
+    if os.path.getsize(sp) > 0:
+        def skey(ln, cur, idx):
+            return "syncer:wait-ends-without-cause-or-late:%s" % ln.get("ep")
+        sync_lines, sync_rej, _ = linetrace.validate(
+            ctx, "Trace_Syncer", SYNC_TR, sp, "tr_sync", skey,
+            "resend-sync trace", segment_op="reset", max_rejects=10)
+    rej += sync_rej
     write_evidence(ctx, "model_checking", {
         "states": states, "transitions": trans,
         "traces_validated_against_impl": len(runs) - rej,
         "trace_lines": n,
+        "sync_waits_validated": sync_waits, "sync_lines": sync_lines,
+        "syncer_model_states": ctx.cov.get("syncer_model_states", 0),
         "evaluations": len(runs),
         "distinct_nontrivial": len({json.dumps(r["desc"], sort_keys=True) for r in runs}),
         "rule": "one evaluation = one real connection pair run through a "
